@@ -528,6 +528,20 @@ Theorem C14_print_map_entries : forall l1 l2,
 Proof. exact map_entries_perm. Qed.
 Print Assumptions C14_print_map_entries.
 
+(* ... for EVERY kind a map key can have (bool, the ten integer kinds, string): the entries are ordered by their printed keys as
+   Go strings whatever the kind.  Regenerated from optionreflect/walk.go: a sort call with a function-literal comparator follows
+   the Range; every switch over protoreflect kinds in that comparator (and in the functions it calls) and in the code that prints
+   the key has an arm for each of the twelve kinds (C14-H: a comparator switching over the kind without sint / fixed arms); on
+   the current code the comparator does not switch over the kind at all, which is what map_entries models *)
+Theorem C14_map_key_kinds_covered : map_key_kinds_covered = true.
+Proof. exact map_key_kinds_are_covered. Qed.
+Print Assumptions C14_map_key_kinds_covered.
+Theorem C14_map_key_comparator_kind_agnostic :
+  map_key_comparator_kind_agnostic = true
+  /\ forall k l1 l2, Permutation l1 l2 -> distinct_on (fun kv : bytes * bytes => fst kv) l1 -> map_entries_of_kind k l1 = map_entries_of_kind k l2.
+Proof. exact (conj map_key_comparator_is_kind_agnostic map_entries_of_kind_perm). Qed.
+Print Assumptions C14_map_key_comparator_kind_agnostic.
+
 (* ---- non-vacuity *)
 Example C14_example_imports :
   (* "j5/ext", "buf/validate", "j5/ext" again, in two different call orders *)
